@@ -390,6 +390,30 @@ class FnWeaver:
         off = self.src.toks[cb][1]
         self.edits.append((off, off, [('\n'.join(lines) + '\n', 'tmpl', self.tmpl_file, tline)]))
 
+    def replace_arm(self, regex, replacement):
+        """D8: the block of the match arm whose first line matches `regex` is replaced by `replacement` (nothing is concluded about that arm)"""
+        rx = re.compile(regex)
+        pos = 0
+        for ln in self.text.split('\n'):
+            a, b = pos, pos + len(ln)
+            pos = b + 1
+            if rx.search(ln):
+                # the `{` that ends this line
+                k = None
+                for t_i in self.src.code:
+                    t = self.src.toks[t_i]
+                    if a <= t[1] < b and self.src.is_p(t_i, '{'):
+                        k = t_i
+                if k is None:
+                    break
+                cb = self.src.matches()[k]
+                x, y = self.src.toks[k][2], self.src.toks[cb][1]
+                nl = self.text[x:y].count('\n')
+                self.edits.append((x, y, [(' ' + replacement + ' ' + '\n' * nl, 'repo', self.rel, self.line_at(x))]))
+                self.rules.add('D8')
+                return
+        self.lost.append('arm /%s/ of %s' % (regex, self.qual))
+
     def add_end(self, lines, tline):
         """proof block just before the closing brace of the body (for functions whose body ends with a statement)"""
         p = self.parts
@@ -698,6 +722,10 @@ def weave(unit_path):
             info['unit'] = mm.group(1)
             info['props'] = mm.group(2).split(',')
             info['title'] = mm.group(3)
+            mr = re.match(r'rlimit=(\d+)\s*(.*)$', info['title'])
+            if mr:
+                info['rlimit'] = int(mr.group(1))
+                info['title'] = mr.group(2)
             i += 1
         elif d == 'include':
             p = os.path.join(VERIF, arg)
@@ -750,7 +778,8 @@ def weave(unit_path):
                 qual = qual + '#loop%s(%s)' % (opts['loop'], opts['name'])
                 info['rules'].add('D6')
             fw = FnWeaver(text, rel, first_line, qual, trel)
-            fw.publicise()
+            if not opts.get('trait'):
+                fw.publicise()
             if d == 'stub':
                 fw.stub_body()
             else:
@@ -804,6 +833,9 @@ def weave(unit_path):
                     fw.add_end(blk, blk_line)
                 elif sd == 'loopend':
                     fw.add_loop_end(int(sarg), blk, blk_line)
+                elif sd == 'replacearm':
+                    mm3 = re.match(r'/(.*)/\s*=>\s*(.*)$', sarg)
+                    fw.replace_arm(mm3.group(1), mm3.group(2))
                 elif sd == 'loop':
                     la = sarg.split()
                     itn = None
